@@ -1013,8 +1013,12 @@ pub fn run(tier: &str) -> i32 {
                 });
             }
             Err(e) => {
-                eprintln!("HARNESS ERROR: {e}");
-                return 2;
+                // Miri not being able to interpret the program (an unsupported operation
+                // in a changed tree, a missing toolchain component) is not a verdict on
+                // the property and not a reason to discard the seeded runs above
+                eprintln!("note: the Miri tier could not run: {e}");
+                ev.probe("miri_tier_could_not_run", 1);
+                ev.assumptions.push("the Miri tier could not run on this tree; intra-call schedules were explored only by the native thread batches".into());
             }
         }
     } else {
